@@ -136,6 +136,10 @@ def gen_cuckoo(rng, n, tag='k'):
         l = rng.choice([2, 2, 3, 5, 8, 16, 33, 64])
         cfg = {'hasher': hasher(rng, 0.8), 'u': u, 'rngseed': rng.randrange(1 << 32)}
         L = ['new 0 %d %d %d' % (bs, nb, l), 'new 1 %d %d %d' % (bs, nb, l)]
+        if l == 64 and rng.random() < 0.6:
+            # fingerprint hashes at the top of the u64 range (the modulus 2^64 - 1 matters only there)
+            for x in rng.sample(range(u), 2):
+                L.insert(0, 'HSET 0 %d %d' % (x, rng.choice([(1 << 64) - 1, (1 << 64) - 2])))
         live = {0, 1}
         for _ in range(rng.randrange(4, 30)):
             i = rng.choice([0, 0, 0, 1, 2])
@@ -323,6 +327,13 @@ def td_values(rng, n, shape):
     if shape == 'heavy': return [rng.paretovariate(1.1) for _ in range(n)]
     if shape == 'discrete': return [float(rng.randrange(7)) for _ in range(n)]
     if shape == 'dyadic': return [rng.randrange(-64, 64) / 8.0 for _ in range(n)]
+    if shape == 'extreme':
+        # one value near +f64::MAX and one near -f64::MAX among small ones: max - min overflows, no sum does
+        v = [rng.choice([3.0, -2.0, 0.5, 7.25, -0.125, 1.0]) for _ in range(max(n, 3))]
+        i, j = rng.sample(range(len(v)), 2)
+        v[i] = rng.choice([1e308, 1.6e308, 9.5e307, 1.7976931348623157e308])
+        v[j] = -rng.choice([1e308, 1.6e308, 9.5e307, 1.7976931348623157e308])
+        return v
     if shape == 'huge': return [rng.uniform(-1, 1) * 10.0 ** rng.randrange(-30, 30) for _ in range(n)]
     return [rng.uniform(-5, 5) for _ in range(n)]
 def gen_td(rng, n, tag='d', nmax=300):
@@ -332,8 +343,8 @@ def gen_td(rng, n, tag='d', nmax=300):
         delta = rng.choice([1.1, 1.5, 2.0, 3.0, 5.0, 10.0, 20.0, 100.0, 1000.0])
         maxb = rng.choice([0, 0, 1, 2, 7, 20, 100, 5000])
         L = ['new 0 %s %d %d' % (K, f64bits(delta), maxb)]
-        shape = rng.choice(['sorted', 'reverse', 'normal', 'heavy', 'discrete', 'dyadic', 'huge', 'uniform'])
-        weighted = rng.random() < 0.35
+        shape = rng.choice(['sorted', 'reverse', 'normal', 'heavy', 'discrete', 'dyadic', 'huge', 'uniform', 'extreme'])
+        weighted = rng.random() < 0.35 and shape != 'extreme'
         vals = td_values(rng, rng.randrange(1, nmax), shape)
         live = {0}
         for x in vals:
@@ -360,7 +371,7 @@ def gen_td(rng, n, tag='d', nmax=300):
                 L.append('quant %d %d' % (i, f64bits(q)))
             for x in [min(vals) - 1.0, min(vals), max(vals), max(vals) + 1.0, rng.choice(vals), rng.uniform(min(vals), max(vals) + 1e-9)]:
                 L.append('cdf %d %d' % (i, f64bits(x)))
-        out.append(case('%s%d' % (tag, c), 'td', {'rank': 0} if shape == 'huge' else {}, L))
+        out.append(case('%s%d' % (tag, c), 'td', {'rank': 0} if shape in ('huge', 'extreme') else {}, L))
     return out
 def ulps(x, k):
     """x moved by k units in the last place"""
